@@ -264,6 +264,9 @@ func (w *qWorld) resolveAnswers() {
 			if !s.failed && s.kind == "FIN" {
 				s.d.mc.finMaybe = true
 			}
+			if cm := w.chans[s.co.ck]; cm != nil && !s.failed {
+				cm.Tainted = true // an accepted command the ledger cannot attribute
+			}
 			continue
 		}
 		if !s.failed {
